@@ -137,3 +137,33 @@ Fixpoint zdedup (l : list Z) : list Z :=
 (* len(set(l)) == len(l) *)
 Fixpoint znodup (l : list Z) : bool :=
   match l with [] => true | x :: t => negb (zmem x t) && znodup t end.
+
+(* ---- further combinators used only by translated code ----------------------------- *)
+Record weekday := mkWd { wd_value : Z; wd_time : time }.
+(* dt.timedelta(days=, hours=, minutes=, seconds=, microseconds=) *)
+Definition td_make5 (days hours minutes seconds micros : Z) : timedelta :=
+  days * D + hours * HR + minutes * MN + seconds * SEC + micros.
+
+(* Python floats inside the priority functions, over exact rationals num/den (den > 0).
+   IEEE rounding is modelled, not verified. *)
+Definition pyfloat := (Z * Z)%type.
+Definition fl_of_int (n : Z) : pyfloat := (n, 1).
+Definition fl_add_int (a : pyfloat) (n : Z) : pyfloat := (fst a + n * snd a, snd a).
+Definition fl_mul (a b : pyfloat) : pyfloat := (fst a * fst b, snd a * snd b).
+Definition fl_lt_int (a : pyfloat) (n : Z) : bool := fst a <? n * snd a.
+Record pyjob := mkPyJob { pj_weight : pyfloat }.
+
+(* Python str as a list of code points; s[lo:hi] with Python's treatment of absent,
+   negative and out-of-range bounds *)
+Definition pystr := list Z.
+Definition slice_bound (len : Z) (b : option Z) (dflt : Z) : Z :=
+  match b with
+  | None => dflt
+  | Some v => let v' := if v <? 0 then v + len else v in
+              if v' <? 0 then 0 else if len <? v' then len else v'
+  end.
+Definition py_slice (s : pystr) (lo hi : option Z) : pystr :=
+  let len := Z.of_nat (length s) in
+  let a := slice_bound len lo 0 in
+  let b := slice_bound len hi len in
+  firstn (Z.to_nat (b - a)) (skipn (Z.to_nat a) s).
